@@ -314,14 +314,45 @@ func vfLabelsString(ls []labelpb.ZLabel) string {
 	return sb.String()
 }
 
+// vfCloneSeries is a field-by-field deep copy (a marshal/unmarshal round trip would not be neutral: the
+// generated proto3 marshaller drops -0.0 like any other zero).
 func vfCloneSeries(ts prompb.TimeSeries) prompb.TimeSeries {
-	b, err := ts.Marshal()
-	if err != nil {
-		panic(err)
+	cl := func(ls []labelpb.ZLabel) []labelpb.ZLabel {
+		if ls == nil {
+			return nil
+		}
+		out := make([]labelpb.ZLabel, len(ls))
+		for i, l := range ls {
+			out[i] = labelpb.ZLabel{Name: strings.Clone(l.Name), Value: strings.Clone(l.Value)}
+		}
+		return out
 	}
-	var out prompb.TimeSeries
-	if err := out.Unmarshal(b); err != nil {
-		panic(err)
+	out := prompb.TimeSeries{Labels: cl(ts.Labels), Samples: append([]prompb.Sample(nil), ts.Samples...)}
+	for _, e := range ts.Exemplars {
+		out.Exemplars = append(out.Exemplars, prompb.Exemplar{Labels: cl(e.Labels), Value: e.Value, Timestamp: e.Timestamp})
+	}
+	for _, h := range ts.Histograms {
+		c := h
+		c.NegativeSpans = append([]prompb.BucketSpan(nil), h.NegativeSpans...)
+		c.PositiveSpans = append([]prompb.BucketSpan(nil), h.PositiveSpans...)
+		c.NegativeDeltas = append([]int64(nil), h.NegativeDeltas...)
+		c.PositiveDeltas = append([]int64(nil), h.PositiveDeltas...)
+		c.NegativeCounts = append([]float64(nil), h.NegativeCounts...)
+		c.PositiveCounts = append([]float64(nil), h.PositiveCounts...)
+		c.CustomValues = append([]float64(nil), h.CustomValues...)
+		switch x := h.Count.(type) {
+		case *prompb.Histogram_CountInt:
+			c.Count = &prompb.Histogram_CountInt{CountInt: x.CountInt}
+		case *prompb.Histogram_CountFloat:
+			c.Count = &prompb.Histogram_CountFloat{CountFloat: x.CountFloat}
+		}
+		switch x := h.ZeroCount.(type) {
+		case *prompb.Histogram_ZeroCountInt:
+			c.ZeroCount = &prompb.Histogram_ZeroCountInt{ZeroCountInt: x.ZeroCountInt}
+		case *prompb.Histogram_ZeroCountFloat:
+			c.ZeroCount = &prompb.Histogram_ZeroCountFloat{ZeroCountFloat: x.ZeroCountFloat}
+		}
+		out.Histograms = append(out.Histograms, c)
 	}
 	return out
 }
